@@ -324,8 +324,48 @@ def check_packet_init(ctx):
         ctx.violation(rule, fi, 'Packet.__init__', 'no path initialises every field with the keyword dict', fi.node.lineno, clause='c')
 
 
+def check_snapshots(ctx):
+    """the default of a packet reference is the prototype *as declared*: Ref._compile asks the
+    packet for a snapshot, and every request takes a new one (a snapshot remembered from an
+    earlier declaration that used the same packet object shows the packet as it was then)"""
+    repo = ctx.repo
+    rule = 'C19-prototype-snapshot'
+    pk = repo.cls('Packet')
+    fi = pk.methods.get('as_prototype')
+    if fi is None:
+        ctx.undecided(rule, (pk.file, 'Packet'), 'Packet.as_prototype', 'anchor not found', pk.node.lineno, clause='b')
+        return
+    ctx.unit('functions')
+    tables = set()
+    for st in repo.modules[fi.module]['tree'].body:
+        if isinstance(st, ast.Assign) and isinstance(st.value, (ast.Dict, ast.List, ast.Set)) or (isinstance(st, ast.Assign) and isinstance(st.value, ast.Call) and (call_name(st.value) or '').split('.')[-1] in ('dict', 'list', 'set', 'WeakValueDictionary', 'WeakKeyDictionary', 'OrderedDict', 'defaultdict')):
+            for t in st.targets:
+                if isinstance(t, ast.Name):
+                    tables.add(t.id)
+    used = sorted({n.id for n in ast.walk(fi.node) if isinstance(n, ast.Name) and n.id in tables})
+    attrs = sorted({n.attr for n in ast.walk(fi.node) if isinstance(n, ast.Attribute) and isinstance(n.ctx, ast.Load) and isinstance(n.value, ast.Name) and n.value.id == 'self'
+                    and n.attr.startswith('_') and 'prototype' in n.attr.lower()})
+    if used or attrs:
+        ctx.violation(rule, fi, 'Packet.as_prototype reads %s' % ', '.join(used + ['self.' + a for a in attrs]), 'snapshots are remembered between requests: a packet used as prototype, then changed, then used in another declaration is given the earlier snapshot', fi.node.lineno, clause='b', witness=True)
+        return
+    ok = True
+    for p in repo.walker().paths(fi.node, cls=pk):
+        if p.raises():
+            continue
+        r = p.ret()
+        if not (isinstance(r, ast.Call) and (call_name(r) or '').split('.')[-1] == 'Prototype' and len(r.args) == 1 and canon(r.args[0]) == 'self'):
+            ok = False
+            ctx.undecided(rule, fi, 'Packet.as_prototype -> %s' % (canon(r)[:80] if r is not None else None), 'not a new Prototype(self)', fi.node.lineno, clause='b')
+    if ok:
+        ctx.holds(rule, fi, 'Packet.as_prototype -> Prototype(self)', 'a new snapshot per request', fi.node.lineno, clause='b')
+
+
 def check(ctx):
     check_ctor_folds(ctx)
+    check_snapshots(ctx)
+    # a declared default that is a packet is copied whole (hidden slots included)
+    from .c17 import check_copies_keep_state
+    check_copies_keep_state(ctx, rule='C19-defaults-copied-whole')
     check_inits(ctx)
     check_packet_init(ctx)
     # a keyword naming a described field overrides it like an assignment (C17-d)
